@@ -383,6 +383,22 @@ var c11Injectors = []c11Injector{
 		ms.Mods = append(ms.Mods, s0, s1, s2, s3)
 		return true
 	}},
+	// a submodule that belongs to a module of the set but that no include statement leads to, importing a module
+	// that is not supplied (and one that is): whatever is made of it, the same every time and without a panic
+	{"submodule-that-nothing-includes-imports-a-missing-module", false, func(r *core.Rng, ms *yang.ModSet) bool {
+		m := modA(ms)
+		sub := yang.S("submodule", "sub-orphan", yang.S("belongs-to", m.Arg, yang.S("prefix", pfx(m))),
+			yang.S("import", "no-such-module", yang.S("prefix", "nsm")),
+			yang.S("leaf", "orphan-leaf", yang.S("type", "nsm:t")),
+			yang.S("augment", "/nsm:top", yang.S("leaf", "orphan-aug", yang.S("type", "string"))))
+		if r.Bool() {
+			sub2 := yang.S("submodule", "sub-orphan2", yang.S("belongs-to", m.Arg, yang.S("prefix", pfx(m))), yang.S("include", "sub-orphan"),
+				yang.S("import", "no-such-module-2", yang.S("prefix", "nsm2")))
+			ms.Mods = append(ms.Mods, sub2)
+		}
+		ms.Mods = append(ms.Mods, sub)
+		return true
+	}},
 	{"list-key-names-no-leaf", false, func(r *core.Rng, ms *yang.ModSet) bool {
 		switch r.Intn(3) {
 		case 0:
